@@ -30,7 +30,7 @@ var orderExceptions = []orderException{
 		"runs single-threaded after the insert workers were joined"},
 	{"cache.ItemCache.itemsMu", "vamana.graphNode.edgesMu", "EdgeScan", "shard/index/vamana",
 		"edge scan happens in the delete phase, after the insert workers (the only holders of edgesMu that take itemsMu) were joined; the cache is held exclusively by this transaction"},
-	{"cache.sharedCacheElem.mu", "cache.Transaction.mu", "Transaction).With", "shard/cache",
+	{"cache.sharedCacheElem.mu", "cache.Transaction.mu", "cache.Transaction).", "shard/cache",
 		"the held elem is the one this call just created; Transaction.mu is per transaction and none of its goroutines waits for an elem the transaction already write-holds"},
 }
 
@@ -174,6 +174,10 @@ func LockOrder(w *load.World, ls *lockset.Result, c *core.Collector) {
 func LockPair(w *load.World, ls *lockset.Result, c *core.Collector) {
 	leaky := map[*ssa.Function]bool{}
 	for _, l := range ls.Leaks {
+		if l.Transfer {
+			// a helper that returns with a lock held: the lock is tracked on in its callers
+			continue
+		}
 		leaky[l.Fn] = true
 		classes := []string{}
 		for _, h := range l.Held {
@@ -184,7 +188,7 @@ func LockPair(w *load.World, ls *lockset.Result, c *core.Collector) {
 		sort.Strings(classes)
 		key := "exit-holding:" + load.FnKey(l.Fn) + ":" + strings.Join(classes, ",")
 		// hand-over: Transaction.With may return holding the write lock of an elem iff registered
-		if strings.HasSuffix(load.FnKey(l.Fn), "cache.Transaction).With") && handedOver(l) {
+		if strings.HasPrefix(load.FnKey(l.Fn), "(*shard/cache.Transaction).") && handedOver(l) {
 			c.Add("LOCKPAIR", key, core.Exception, l.At, "write lock handed over to the transaction: the elem is registered in writtenCaches before this exit and Commit unlocks every registered elem", "C11", "C07")
 			continue
 		}
@@ -229,7 +233,7 @@ func handedOver(l lockset.Leak) bool {
 		if h.Class != "cache.sharedCacheElem.mu" || h.Mode != lockset.W {
 			return false
 		}
-		if !contains(l.Tags, "registered:"+strings.TrimSuffix(h.Key, ".mu")) {
+		if !h.Handed && !contains(l.Tags, "registered:"+strings.TrimSuffix(h.Key, ".mu")) {
 			return false
 		}
 	}
